@@ -85,7 +85,8 @@ def compare_with_oracle(items, oracle_bin="p_syntax", max_rounds=4):
         for k in pending:
             for e in answers[k][5:].split(","):
                 tables[k][e] = cache[e]
-            tbl = ",".join(f"{e[0]}{tables[k][e]}{e[1:]}" for e in sorted(tables[k]))
+            # value = validity digit, then (refused regexes) `~a~b`: the span regex-syntax blames
+            tbl = ",".join(f"{e[0]}{tables[k][e][:1]}{e[1:]}{tables[k][e][1:]}" for e in sorted(tables[k]))
             base = reqs[k][1].rsplit(" ", 1)[0]
             newreqs.append(base + " " + tbl)
         newans = vlib.run_driver(newreqs)
